@@ -22,6 +22,33 @@ NAME = "check-ai"
 ENVS = {"BLOCKWATCH_AI_API_KEY": r"OpenAIConfig::with_api_key$", "BLOCKWATCH_AI_API_URL": r"OpenAIConfig::with_api_base$", "BLOCKWATCH_AI_MODEL": None}
 
 
+def check_request_gate(ctx, out, rule):
+    """Shared with C13 (missing API key fails closed): the request function cannot return Ok without
+    having passed the empty-key test and the request itself."""
+    cb = None
+    for b in ctx.reachable_bodies():
+        if any(callee_matches(t, r"^async_openai::Chat::.*::create$") for bi, t in b.calls()):
+            cb = b
+    if cb is None:
+        out.inst(rule, 0, 1, note="request function not found")
+        return
+    cb = ctx.inl(cb, skip=ctx.domain_api, tag="domain", sugar=True)
+    cfg = cfg_of(cb)
+    E = ctx.expr(cb)
+    creates = [(bi, t) for bi, t in cb.calls() if callee_matches(t, r"^async_openai::Chat::.*::create$")]
+    r = cfg.reach(0, avoid={creates[0][0]})
+    early = [s for bi, j, s in cb.assigns() if bi in r and s["lhs"]["l"] == 0 and not s["lhs"]["p"] and s["rv"]["k"] == "agg"
+             and s["rv"].get("path") == "std::result::Result" and s["rv"].get("variant") == "Ok"]
+    early += [s for bi, j, s in cb.assigns() if bi in r and s["rv"]["k"] == "agg" and s["rv"].get("path") == "std::task::Poll" and s["rv"].get("variant") == "Ready"
+              and any(x[0] == "agg" and x[1].endswith("Result::Ok") for x in walk(E.rvalue(s["rv"])))]
+    if early:
+        out.viol(rule, "%s|ok-without-request" % rule, ctx.where(cb, early[0]["span"]),
+                 "the check-ai request function can return Ok before the empty-key test and the request: with a missing API key such a block passes silently instead of failing the run")
+        out.inst(rule, 0, 1)
+    else:
+        out.inst(rule, 1, 1, ["every Ok return of the request function passes the key test and the request"])
+
+
 def run(ctx, out, tier):
     res = asyncval.check_once(ctx, out, "C19", NAME, r"check_ai::AiClient::check_block$", "request (`AiClient::check_block`)")
     # the production client's check_block
@@ -57,6 +84,20 @@ def run(ctx, out, tier):
             n += 1
         else:
             out.viol("C19.request", "C19.request|empty-key", ctx.where(cb), "no `return Err` guarded by `api_key.is_empty()` that dominates the request: a missing key would send a request (or pass) instead of failing closed")
+        # no verdict without asking: every Ok return of the request function passes the request (an early
+        # `return Ok(None)` - for empty content, say - is a pass nobody gave, and it also bypasses the
+        # empty-key error)
+        if creates:
+            r = cfg.reach(0, avoid={creates[0][0]})
+            early = [s for bi, j, s in cb.assigns() if bi in r and s["lhs"]["l"] == 0 and not s["lhs"]["p"] and s["rv"]["k"] == "agg"
+                     and s["rv"].get("path") == "std::result::Result" and s["rv"].get("variant") == "Ok"]
+            early += [s for bi, j, s in cb.assigns() if bi in r and s["rv"]["k"] == "agg" and s["rv"].get("path") == "std::task::Poll" and s["rv"].get("variant") == "Ready"
+                      and any(x[0] == "agg" and x[1].endswith("Result::Ok") for x in walk(E.rvalue(s["rv"])))]
+            if early:
+                out.viol("C19.request", "C19.request|ok-without-request", ctx.where(cb, early[0]["span"]),
+                         "the request function can return Ok without sending the request: the block passes although the model was never asked (and a missing API key goes unnoticed on that path)")
+            else:
+                n += 1
         # the user message
         ucs = [(bi, t) for bi, t in cb.calls() if callee_matches(t, r"ChatCompletionRequestUserMessageArgs::content$")]
         if len(ucs) == 1:
@@ -89,7 +130,7 @@ def run(ctx, out, tier):
                 n += 1
             else:
                 out.viol("C19.request", "C19.request|messages", ctx.where(cb, msgs[0][1]["span"]), "the request does not carry the system and the user message")
-    out.inst("C19.request", n, 5, ["one create(); Err if key empty; user := format(condition, content); model := self.model"])
+    out.inst("C19.request", n, 6, ["one create(); Err if key empty; no Ok without request; user := format(condition, content); model := self.model"])
 
     # ------------------------------------------------------------------ C19.env
     m = 0
